@@ -369,6 +369,24 @@ class VCtxRandom(ContextProcessor):
         self._notify_context_update("rand_draw", [random.random(), float(np.random.random())])
 
 
+class VHookedCtx(ContextProcessor):
+    """Context processor that still advertises the legacy ``get_required_keys()`` hook for a key that HAS a default:
+    writes hooked = hk_scale * 10.  (The hook is "for backward compatibility and inspection purposes"; resolution follows
+    the usual precedence, so the node runs fine without the key.)"""
+
+    @classmethod
+    def get_created_keys(cls) -> List[str]:
+        return ["hooked"]
+
+    @classmethod
+    def get_required_keys(cls) -> List[str]:
+        return ["hk_scale"]
+
+    def _process_logic(self, hk_scale: float = 2.0):
+        REC.add("VHookedCtx", None, {"hk_scale": hk_scale})
+        self._notify_context_update("hooked", hk_scale * 10)
+
+
 class VCtxBadWriter(ContextProcessor):
     """Fault component: writes a key it does not declare."""
 
@@ -630,6 +648,55 @@ class VInterrupt(_VFloatOp):
         if exc is not None:
             raise exc
         raise VAbort("abort")
+
+
+class VBadPayloadSrc(PayloadSource):
+    """Fault component: payload source whose returned context carries a key it does NOT declare as injected."""
+
+    @classmethod
+    def _get_payload(cls, seed: float = 5.0) -> Payload:
+        REC.add("VBadPayloadSrc", None, {"seed": seed})
+        return Payload(FloatDataType(float(seed)), ContextType({"ps_key": float(seed) * 2, "undeclared_key": 1.0}))
+
+    @classmethod
+    def output_data_type(cls):
+        return FloatDataType
+
+    @classmethod
+    def _injected_context_keys(cls):
+        return ["ps_key"]
+
+
+class VWriteThenBoom(_VFloatOp):
+    """Fault component: writes its declared context key ``note`` (= data + addend) and THEN raises VBoomError."""
+
+    @classmethod
+    def context_keys(cls) -> List[str]:
+        return ["note"]
+
+    def _process_logic(self, data, addend: float = 1.0):
+        REC.add("VWriteThenBoom", data, {"addend": addend})
+        self._notify_context_update("note", data.data + addend)
+        exc = PREBUILT.get("boom")
+        if exc is not None:
+            raise exc
+        raise VBoomError("boom after writing note")
+
+
+class VCtxWriteThenBoom(ContextProcessor):
+    """Fault component (any data): writes its declared key ``scaled`` (= base * 2) and THEN raises VBoomError."""
+
+    @classmethod
+    def get_created_keys(cls) -> List[str]:
+        return ["scaled"]
+
+    def _process_logic(self, base: float = 1.5):
+        REC.add("VCtxWriteThenBoom", None, {"base": base})
+        self._notify_context_update("scaled", base * 2)
+        exc = PREBUILT.get("boom")
+        if exc is not None:
+            raise exc
+        raise VBoomError("boom after writing scaled")
 
 
 class VBadType(_VFloatOp):
